@@ -27,6 +27,11 @@ from . import project
 from .fsseam import SEAM, SimCrash, REAL, REAL_IO_OPEN
 
 WATCHDOG_S = 30.0
+MAX_CALLS_PER_PROCESS = 2500        # an undisturbed definition of three classes makes ~150 file-system calls
+
+
+class NeverFinished(BaseException):
+    """raised inside a simulated process whose definition does not come to an end (a wait that nothing will ever satisfy)"""
 
 # ---------------------------------------------------------------------------------------
 # the same-named family (class Foo in defs.py); see DESIGN.md appendix C
@@ -187,6 +192,7 @@ class SimProc:
         self.bisturi = None
         self.defs_mods = {}
         self.opcount = 0
+        self.calls = 0
         self.mid_write = False
         self.rstate = None            # state of the `random` module as this process sees it
         self.optimize = 0             # 1: this process runs as `python -O` (bisturi's asserts are compiled out)
@@ -301,6 +307,11 @@ class World:
         self.steps += 1
         if proc.dead:
             raise SimCrash()
+        proc.calls += 1
+        if proc.calls > MAX_CALLS_PER_PROCESS:
+            self.out.stats["probe:definition-never-finished"] += 1
+            raise NeverFinished("the definition made %d file-system calls / sleeps and still has not finished (last: %s %s)" % (
+                proc.calls, kind, SEAM.norm(rel)))
         if self.oplog is not None:
             self.oplog.append((proc.label, kind, rel, info))
         if self.kill_at is not None and proc.label == self.kill_target:
